@@ -63,6 +63,9 @@ func (e *Exec) call(fr *Frame, st *BState, x *ssa.Call) SV {
 		if mc, ok := closureOf[fv]; ok {
 			return e.callStatic(fr, st, x, mc.Fn.(*ssa.Function), args, closures[mc])
 		}
+		if sf, ok := staticFuncOf[fv]; ok {
+			return e.callStatic(fr, st, x, sf, args, nil)
+		}
 		if r, ok := e.dynamicCall(st, x, args); ok {
 			return r
 		}
@@ -496,6 +499,13 @@ func init() {
 		tup := x.Type().(*types.Tuple)
 		return &TupleV{Elems: []SV{&Scalar{T: e.strLen(scal(args[1])), Ty: tup.At(0).Type()}, zeroValue(tup.At(1).Type())}}
 	}
+	externs["(*strings.Builder).WriteRune"] = func(e *Exec, st *BState, x *ssa.Call, args []SV) SV {
+		a := bAddr(args[0])
+		arr := bArr(e, st)
+		st.heap[bKey] = sto(arr, a, app(SStr, "str.++", sel(arr, a, SStr), ufun("ext.runeString", []string{SInt}, SStr, scal(args[1]))))
+		tup := x.Type().(*types.Tuple)
+		return &TupleV{Elems: []SV{e.freshSV(tup.At(0).Type(), "n", st.reach, false), zeroValue(tup.At(1).Type())}}
+	}
 	externs["(*strings.Builder).String"] = func(e *Exec, st *BState, x *ssa.Call, args []SV) SV {
 		return &Scalar{T: sel(bArr(e, st), bAddr(args[0]), SStr), Ty: x.Type()}
 	}
@@ -821,3 +831,5 @@ func ownedBy(a *ssa.Alloc, f *ssa.Function) bool {
 	}
 	return false
 }
+
+var staticFuncOf = map[SV]*ssa.Function{}
